@@ -145,7 +145,7 @@ def run(ctx):
             r = n_.args[0]
             if isinstance(r, ast.Attribute) and r.attr in cm.methods:
                 handlers.append(cm.methods[r.attr])
-    ctx.floor("R6.2", "column transformers installed by get_transformers", len(handlers), 2)
+    ctx.floor("R6.2", "column transformers installed by get_transformers", len(handlers), 1)
     for h in handlers:
         ctx.saw(h)
         consts = []
